@@ -125,6 +125,22 @@ def generate(tier, seed):
     for l in ['"a,b" , c', '"a', 'a"', '""', '" "', ",", ",,", "a,", ",a", " # c", "#c", "", "   ", 'p, "x, y", z', 'a,"b"c,d', 'a,b\r', "\ta\t,\tb\t",
               'p, a , "b" ,"c,d"', '"a""b"', "a,\"b", "é , 日本"]:
         cases.append("csv " + enc(l))
+    # (a2) whole policy TEXTS through the adapters' own line loops (StringAdapter / FileAdapter): comment and blank lines,
+    # CRLF, spacing, quoting; the loaded stores must be exactly the rows of the text
+    dist["policy_texts"] = 0
+    sp_pol = "r=sub,obj,act;p=sub,obj,act;p2=sub,act;g=2;g2=3;e=AO;m={%s}" % engine.eq3()
+    for _ in range(150 if tier == "quick" else 3000):
+        rows = []
+        for _ in range(rnd.randint(0, 6)):
+            k = rnd.choice(["p", "p", "p2", "g", "g2"])
+            n = {"p": 3, "p2": 2, "g": 2, "g2": 3}[k]
+            r = [k] + [rnd.choice(VALUES + EDGE) for _ in range(n)]
+            if r not in rows:      # (a repeated row is a set-semantics question of C04, not of the text format)
+                rows.append(r)
+        text = engine.policy_text(rnd, rows)
+        ad = engine.adapter_T(text) if rnd.random() < 0.5 else engine.adapter_Ft(text)
+        cases.append(engine.case("eng", sp_pol, ad, "-", ["?ga:p", "?ga:g", "LD", "?ga:p", "?ga:g"]))
+        dist["policy_texts"] += 1
     # (b) model layouts
     K = engine.kinds(("AO", "DO", "AD", "PR"))
     n_lay = 12 if tier == "quick" else 200
@@ -215,7 +231,8 @@ def generate(tier, seed):
     return {
         "cases": cases,
         "exhaustive": False,
-        "rule": ("policy lines over csv-safe values (commas, inner blanks, '#', multi-byte, ptype look-alikes) x blanks before/after every column "
+        "rule": ("[policy texts] whole policy files (rows interleaved with comment / blank lines, CRLF, spacing, quoting) loaded through StringAdapter and "
+                 "FileAdapter, judged against the rows the Gallina file parser gives; [lines] policy lines over csv-safe values (commas, inner blanks, '#', multi-byte, ptype look-alikes) x blanks before/after every column "
                  "(also after a closing quote) x optional quoting; every model kind of the family x layouts (blank/comment lines, spacing around headers, "
                  "keys and '=', CRLF, continuation breaks after && / || with arbitrary indentation); to_text of every kind and of a multi-section model; "
                  "totality stream of noise and mutated model texts. non-trivial = parse succeeded with at least two columns / definitions"),
